@@ -31,7 +31,9 @@ def k_collect(N=3):
         def append_result(self, r):
             W["appended"].append(r)
 
-    hs.ResultsAggregator.load = classmethod(lambda cls, output: W["agg"])
+    from jade.jobs.results_aggregator import ResultsAggregator  # patched on the class: independent of import style
+
+    ResultsAggregator.load = classmethod(lambda cls, output: W["agg"])
 
     def harness(ex):
         nm = names(N)
